@@ -2,16 +2,16 @@
 # the whole-program check sees each feature area at least through these (the per-property checks carry the depth).
 from . import calls, scopes, control, heap, objects, destructure, seq, equality, render, errors
 PICK = {
-    calls: ['this-not-dynamic', 'this-rest-method', 'this-routes', 'self-call-in-args', 'param-fresh', 'this-enclosing'],
-    scopes: ['capture-then-shadow', 'pattern-names-see-outer', 'closure-live', 'fresh-per-iteration', 'later-decl-visible'],
-    control: ['if-chain-effects', 'for-pair-kept', 'mutate-list-in-for', 'return-or-null'],
+    calls: ['this-not-dynamic', 'this-rest-method', 'this-routes', 'self-call-in-args', 'param-fresh', 'this-enclosing', 'this-through-list', 'arity-after-args', 'callee-kinds'],
+    scopes: ['capture-then-shadow', 'pattern-names-see-outer', 'closure-live', 'fresh-per-iteration', 'later-decl-visible', 'scope-after-early-exit', 'shadow-init-reads-outer', 'escaped-closure-calls-sibling', 'dup-params-in-literals'],
+    control: ['if-chain-effects', 'for-pair-kept', 'mutate-list-in-for', 'return-or-null', 'empty-branches', 'jumps-in-literals', 'fn-forlist', 'top-while', 'fn-call'],
     heap: ['store-self-list', 'spread-then-mutate', 'closure-shares', 'for-pair-fresh'],
     objects: ['key-expression-forms', 'literal-order', 'self-key', 'special-keys'],
-    destructure: ['swap', 'rest-fresh', 'law-collect', 'law-obj-collect'],
+    destructure: ['swap', 'rest-fresh', 'law-collect', 'law-obj-collect', 'obj-decl-20', 'obj-decl-19', 'param-underscores', 'misplaced'],
     seq: ['list-range-assign-self-2', 'frame-index-assign', 'concat-empty-frame'],
     equality: ['alias-vs-copy', 'functions', 'self-containing'],
-    render: ['aliasing', 'scalars', 'raw-strings'],
-    errors: ['output-so-far'],
+    render: ['aliasing', 'scalars', 'raw-strings', 'empty-strings'],
+    errors: ['output-so-far', 'kinds-top'],
 }
 def templates(tier, seed=0):
     ts = []
